@@ -235,9 +235,10 @@ def install_probes():
                 if len(_t) > rec.max_tokens:
                     rec.max_tokens = len(_t)
                 dig = rec.dig(_t)
+                sq_tree = ''.join(''.join(_t).split())
                 sdig = reftok.digest(reftok.tree_struct(exprs))
             except Exception:
-                dig = sdig = None
+                dig = sdig = sq_tree = None
             w = {
                 'idx': len(rec.writes),
                 'actor': _actor(),
@@ -264,9 +265,14 @@ def install_probes():
                 rec.end_rewrite('probe')
             finally:
                 data = rec.complete_texts[-1]
-                w['file_dig'] = rec.dig(
-                    reftok.tokenize(data.decode(errors='replace'))
-                ) if data is not None else None
+                ft = reftok.tokenize(data.decode(errors='replace')
+                                     ) if data is not None else None
+                w['file_dig'] = rec.dig(ft) if ft is not None else None
+                # the file must hold exactly the adopted input (compared
+                # without white space)
+                w['file_matches_tree'] = (
+                    sq_tree is None or ft is None
+                    or ''.join(''.join(ft).split()) == sq_tree)
             return r
 
         write_smtlib_to_file.__wrapped__ = orig
